@@ -42,7 +42,7 @@ func defFor(check string) *checkDef {
 			env:      []string{"GORACE=halt_on_error=1 exitcode=66"},
 			variants: []string{"C15", "C15", "C15close", "C15", "C15knownV2", "C15", "C15close", "C15knownStats"},
 			budget:   map[string]tierCfg{"quick": {700, 80}, "thorough": {40000, 1800}},
-			rule:     "three kinds of simulated run under a -race build of the simulator, every run in a worker process of its own (lazily initialised process-wide state is fresh): (a) concurrent windows: every window releases a seeded SET of 2-6 parked actors at once (clients batching, several clients reading one shared held Reader and several clients taking a fresh Writer.Reader() in the same window and searching it at once - first use of a snapshot's caches - through the optimised conjunction/disjunction paths and generated queries of every type, stored-field loads, MemoryUsed(), reader acquisition, persister, merger, closer), so code regions released together have no happens-before edge and any conflicting access pair is reported by the race detector whatever the real timing; the harness is quiet there (no shared mutex between actors); (b) Close at an arbitrary scheduled moment once callers have returned, one release per window (replayable): Close must return (deterministic hang verdict), the three loops must exit, the directory must reopen with every acknowledged batch in a state the index went through; (c) a dedicated unshielded ice-v2 run that exercises the listed known finding; (d) a run of kind (a) whose clients also call Writer.Stats() in the concurrent windows. In all of them the read locks bluge code holds are tracked per goroutine (sync.RWMutex overlay hook): read-locking an RWMutex the goroutine already holds for reading is reported (recursive-read-lock); a window that does not quiesce for 28 s of wall clock is a verdict when a goroutine of bluge/index spins (livelock) or goroutines of bluge wait for bluge's own mutexes (lock-deadlock). distinct = distinct release sequences; non-trivial = background step interleaved between client operations",
+			rule:     "three kinds of simulated run under a -race build of the simulator, every fourth run in a fresh worker process (lazily initialised process-wide state is untouched there): (a) concurrent windows: every window releases a seeded SET of 2-6 parked actors at once (clients batching, several clients reading one shared held Reader and several clients taking a fresh Writer.Reader() in the same window and searching it at once - first use of a snapshot's caches - through the optimised conjunction/disjunction paths and generated queries of every type, stored-field loads, MemoryUsed(), reader acquisition, persister, merger, closer), so code regions released together have no happens-before edge and any conflicting access pair is reported by the race detector whatever the real timing; the harness is quiet there (no shared mutex between actors); (b) Close at an arbitrary scheduled moment once callers have returned, one release per window (replayable): Close must return (deterministic hang verdict), the three loops must exit, the directory must reopen with every acknowledged batch in a state the index went through; (c) a dedicated unshielded ice-v2 run that exercises the listed known finding; (d) a run of kind (a) whose clients also call Writer.Stats() in the concurrent windows. In all of them the read locks bluge code holds are tracked per goroutine (sync.RWMutex overlay hook): read-locking an RWMutex the goroutine already holds for reading is reported (recursive-read-lock); a window that does not quiesce for 28 s of wall clock is a verdict when a goroutine of bluge/index spins (livelock) or goroutines of bluge wait for bluge's own mutexes (lock-deadlock). distinct = distinct release sequences; non-trivial = background step interleaved between client operations",
 			assume:   append([]string{"the Go race detector reports only real races; which regions overlap is decided by the tape, the detector's verdict does not depend on real timing", "for ice v2 segments stored-field access is serialised by the harness wrapper (shield) in (a) so that the listed known race cannot mask others"}, commonAssume...),
 			probes:   []string{"concurrent-windows", "close-while-background-work-in-progress", "reopened-after-early-close"}}
 	case "C08":
